@@ -335,7 +335,11 @@ impl<R: AsyncBufRead + Unpin> NsReader<R> {
     ) -> Result<Span> {
         // According to the https://www.w3.org/TR/xml11/#dt-etag, end name should
         // match literally the start name. See `Config::check_end_names` documentation
-        self.reader.read_to_end_into_async(end, buf).await
+        let span = self.reader.read_to_end_into_async(end, buf).await?;
+        // `read_to_end_into_async` consumed the end tag, so nobody will see an `End`
+        // event for it: leave the namespace scope of the skipped element here
+        self.ns_resolver.pop();
+        Ok(span)
     }
 
     /// An asynchronous version of [`read_resolved_event_into()`]. Reads the next
